@@ -124,13 +124,15 @@ def _texty(s, qname_too=False):
 
 
 HOSTILE = contextvars.ContextVar("hostile_text", default=False)
-_any_text = st.one_of(st.text(max_size=6), st.sampled_from(["\x00", "a\x0bb", "\ufffe", "\x1f", "ok\x08", "line one\rline two\x0b", "\r\x00", "a\rb\x1f"]))
+_any_text = st.one_of(st.text(max_size=6), st.sampled_from(["\x00", "a\x0bb", "\ufffe", "\x1f", "ok\x08"]),
+                      st.sampled_from(["line one\rline two\x0b", "\r\x00", "a\rb\x1f", "x\r\ry\ufffe"]))     # an illegal character after a carriage return
 
 
 def prim_value(prim, where, cr=False):
     """Strategy of encoded values for primitive `prim` at position `where` (attr|text|elem|token)."""
     if prim == "str" and HOSTILE.get() and where in ("attr", "elem"):
-        return st.one_of(xml_text(0, 8, cr), _any_text)
+        # mostly legal text, so that a document usually holds a single illegal string (the first one decides the outcome)
+        return st.one_of(xml_text(0, 8, cr), xml_text(0, 8, cr), xml_text(0, 8, cr), _any_text)
     if prim in ("bytes16", "bytes64") and where in ("token", "text"):
         return _enc(st.binary(min_size=1, max_size=6))      # an empty token is no token; empty text is no text
     if prim == "str":
